@@ -687,7 +687,7 @@ def job_ignore(p):
     cases = [("unchanged", [])]
     for i, f in enumerate(every):
         ig = W.ignored(f, spec)
-        if tier == "thorough" or ig or i % 3 == len(name) % 3:
+        if tier == "thorough" or ig or i % 3 == len(name) % 3 or "keep" in f:
             cases.append((f"flip{i}", [("flip", i, f)]))
             cases.append((f"del{i}", [("del", i, f)]))
     dirs = sorted(p for p, v in W.listing(g0.root, skip_ascmhl=True).items() if v[0] == "d")
@@ -703,8 +703,10 @@ def job_ignore(p):
         cases.append(("mix", [("flip", 0, ign_files[0]), ("del", 1, ign_files[-1]), ("flip", 2, real_files[0]), ("del", 3, real_files[-1]), ("add", 4, "tmp/zz.dat")]))
         cases.append(("mixign", [("flip", 0, ign_files[0]), ("del", 1, ign_files[-1]), ("add", 4, os.path.join(os.path.dirname(ign_files[0]), ".DS_Store"))]))
     if tier != "thorough":
-        keep = [c for c in cases if c[0] in ("unchanged", "mix", "mixign")]
-        rest = [c for c in cases if c[0] not in ("unchanged", "mix", "mixign")]
+        # files whose ignore status changes between generations (re-included by a later negation) are always probed
+        pinned = lambda c: c[0] in ("unchanged", "mix", "mixign") or any("keep" in str(m[2]) for m in c[1])  # noqa
+        keep = [c for c in cases if pinned(c)]
+        rest = [c for c in cases if not pinned(c)]
         cases = keep + [c for i, c in enumerate(rest) if i % 4 == (seed + len(name)) % 4]
     if name == "reinclude-below-ignored":
         cases = cases[:3]
